@@ -1,4 +1,6 @@
 import QuiverModel.Lemmas.Dict.Spec
+import QuiverModel.Lemmas.Dict.Entries
+import QuiverModel.Lemmas.Dict.Canonical
 /-
 C19 — the dict module behaves as a finite map.
 
@@ -171,6 +173,240 @@ theorem persistence (hb : ∀ k, hash k < 2 ^ 32) {d d1 : Dict K V} (h : Inv has
   have _ := hb
   exact ⟨get_spec h k', h⟩
 
+/-! ### `entries`, `count`, `keys`, `values` -/
+
+omit [DecidableEq K] in
+theorem Inv.keys_nodup {d : Dict K V} (h : Inv hash d) : ((toList d).map (·.1)).Nodup := by
+  rcases h with rfl | h
+  · simp
+  · exact h.keys_nodup
+
+omit [DecidableEq K] in
+/-- `entries` lists the contents (in the traversal's order) -/
+theorem entries_perm (d : Dict K V) : (Api.entries d).Perm (toList d) := by
+  have := QM.Dict.entries_perm [d] []
+  simpa [Api.entries] using this
+
+/-- `entries`: distinct keys, and exactly the bindings of the abstraction -/
+theorem entries_spec {d : Dict K V} (h : Inv hash d) :
+    ((Api.entries d).map (·.1)).Nodup ∧
+      ∀ k v, (k, v) ∈ Api.entries d ↔ toMap d k = some v := by
+  constructor
+  · exact ((entries_perm d).map _).nodup_iff.mpr h.keys_nodup
+  · intro k v
+    rw [(entries_perm d).mem_iff, toMap_eq_some_iff h]
+
+omit [DecidableEq K] in
+theorem count_eq_length (d : Dict K V) : Api.count d = (Api.entries d).length := by
+  simp [Api.count, Api.entries, length_eq]
+
+omit [DecidableEq K] in
+theorem keys_eq (d : Dict K V) : Api.keys d = (Api.entries d).map (·.1) := by
+  simp [Api.keys, Api.entries, map_eq]
+
+omit [DecidableEq K] in
+theorem values_eq (d : Dict K V) : Api.values d = (Api.entries d).map (·.2) := by
+  simp [Api.values, Api.entries, map_eq]
+
+/-- `count` is the size of the domain of the abstraction: it equals the length of ANY duplicate-free
+enumeration of the keys bound by `toMap d`. -/
+theorem count_spec {d : Dict K V} (h : Inv hash d) (ks : List K) (hn : ks.Nodup)
+    (hks : ∀ k, k ∈ ks ↔ (toMap d k).isSome = true) : Api.count d = ks.length := by
+  rw [count_eq_length, ← List.length_map (f := (·.1))]
+  obtain ⟨h1, h2⟩ := entries_spec h
+  apply List.Perm.length_eq
+  rw [List.perm_ext_iff_of_nodup h1 hn]
+  intro k
+  rw [hks, List.mem_map]
+  constructor
+  · rintro ⟨⟨a, b⟩, he, rfl⟩
+    rw [(h2 a b).mp he]; rfl
+  · intro hk
+    obtain ⟨v, hv⟩ := Option.isSome_iff_exists.mp hk
+    exact ⟨(k, v), (h2 k v).mpr hv, rfl⟩
+
+/-- `keys` enumerates the domain without repetition -/
+theorem keys_spec {d : Dict K V} (h : Inv hash d) :
+    (Api.keys d).Nodup ∧ ∀ k, k ∈ Api.keys d ↔ (toMap d k).isSome = true := by
+  obtain ⟨h1, h2⟩ := entries_spec h
+  rw [keys_eq]
+  refine ⟨h1, ?_⟩
+  intro k
+  rw [List.mem_map]
+  constructor
+  · rintro ⟨⟨a, b⟩, he, rfl⟩
+    rw [(h2 a b).mp he]; rfl
+  · intro hk
+    obtain ⟨v, hv⟩ := Option.isSome_iff_exists.mp hk
+    exact ⟨(k, v), (h2 k v).mpr hv, rfl⟩
+
+/-- replacing does not change the size, inserting adds one -/
+theorem count_put (hb : ∀ k, hash k < 2 ^ 32) {d d' : Dict K V} (h : Inv hash d) {fuel : Nat} {k : K}
+    {v : V} (hput : Api.put hash fuel d k v = some d') :
+    Api.count d' = if (toMap d k).isSome then Api.count d else Api.count d + 1 := by
+  have h' := put_wf hb h hput
+  obtain ⟨n', m'⟩ := keys_spec h'
+  obtain ⟨n, m⟩ := keys_spec h
+  have hm : ∀ k', k' ∈ Api.keys d' ↔ k' = k ∨ k' ∈ Api.keys d := by
+    intro k'
+    rw [m', m, put_spec hb h hput]
+    by_cases hkk : k' = k <;> simp [hkk]
+  by_cases hk : (toMap d k).isSome = true
+  · simp only [hk, if_true]
+    rw [count_spec h' (Api.keys d) n (fun k' => by
+      rw [← m', hm]
+      constructor
+      · intro h; exact Or.inr h
+      · rintro (rfl | h)
+        · exact (m _).mpr hk
+        · exact h)]
+    rw [count_eq_length, keys_eq, List.length_map]
+  · simp only [hk, Bool.false_eq_true, if_false]
+    have hnk : k ∉ Api.keys d := fun hc => hk ((m k).mp hc)
+    rw [count_spec h' (k :: Api.keys d) (List.nodup_cons.mpr ⟨hnk, n⟩) (fun k' => by
+      rw [← m', hm]; simp)]
+    rw [count_eq_length d, keys_eq, List.length_cons, List.length_map]
+
+/-- removing a bound key takes one off, removing an absent key changes nothing -/
+theorem count_remove {d : Dict K V} (h : Inv hash d) (k : K) :
+    Api.count (Api.remove hash d k) + (if (toMap d k).isSome then 1 else 0) = Api.count d := by
+  have h' := remove_wf h k
+  obtain ⟨n', m'⟩ := keys_spec h'
+  obtain ⟨n, m⟩ := keys_spec h
+  have hm : ∀ k', k' ∈ Api.keys (Api.remove hash d k) ↔ k' ≠ k ∧ k' ∈ Api.keys d := by
+    intro k'
+    rw [m', m, remove_spec h]
+    by_cases hkk : k' = k <;> simp [hkk]
+  by_cases hk : (toMap d k).isSome = true
+  · simp only [hk, if_true]
+    have hkin : k ∈ Api.keys d := (m k).mpr hk
+    rw [count_spec h (k :: Api.keys (Api.remove hash d k))
+      (List.nodup_cons.mpr ⟨fun hc => ((hm k).mp hc).1 rfl, n'⟩) (fun k' => by
+        rw [← m, List.mem_cons, hm]
+        by_cases hkk : k' = k
+        · subst hkk; simp [hkin]
+        · simp [hkk])]
+    rw [count_eq_length, keys_eq, List.length_cons, List.length_map]
+  · simp only [hk, Bool.false_eq_true, if_false, Nat.add_zero]
+    have hnk : k ∉ Api.keys d := fun hc => hk ((m k).mp hc)
+    rw [count_spec h (Api.keys (Api.remove hash d k)) n' (fun k' => by
+      rw [← m, hm]
+      constructor
+      · exact fun h => h.2
+      · intro h; exact ⟨fun hkk => hnk (hkk ▸ h), h⟩)]
+    rw [count_eq_length, keys_eq, List.length_map]
+
+/-! ### `from`, `merge` — later bindings win -/
+
+/-- the map denoted by a list of pairs put one after the other onto `m` -/
+def putAll (m : K → Option V) (pairs : List (K × V)) : K → Option V :=
+  pairs.foldl (fun m e k' => if k' = e.1 then some e.2 else m k') m
+
+theorem fromList_spec (hb : ∀ k, hash k < 2 ^ 32) {fuel : Nat} :
+    ∀ (pairs : List (K × V)) {d d' : Dict K V}, Inv hash d → fromList hash fuel d pairs = some d' →
+      Inv hash d' ∧ toMap d' = putAll (toMap d) pairs := by
+  intro pairs
+  induction pairs with
+  | nil => intro d d' h hf; simp only [fromList, Option.some.injEq] at hf; subst hf; exact ⟨h, rfl⟩
+  | cons e t ih =>
+    intro d d' h hf
+    obtain ⟨k, v⟩ := e
+    simp only [fromList] at hf
+    cases hp : put fuel d k v (hash k) 0 with
+    | none => simp [hp] at hf
+    | some d1 =>
+      simp only [hp] at hf
+      have hput : Api.put hash fuel d k v = some d1 := hp
+      obtain ⟨w1, w2⟩ := ih (put_wf hb h hput) hf
+      refine ⟨w1, ?_⟩
+      rw [w2]
+      simp only [putAll, List.foldl_cons]
+      congr 1
+      funext k'
+      exact put_spec hb h hput k'
+
+theorem fromList_isSome (hb : ∀ k, hash k < 2 ^ 32) {fuel : Nat} (hfuel : 8 ≤ fuel) :
+    ∀ (pairs : List (K × V)) {d : Dict K V}, Inv hash d → (fromList hash fuel d pairs).isSome = true := by
+  intro pairs
+  induction pairs with
+  | nil => intro d _; simp [fromList]
+  | cons e t ih =>
+    intro d h
+    obtain ⟨k, v⟩ := e
+    simp only [fromList]
+    have := put_fuel_suffices hb h hfuel k v
+    cases hp : put fuel d k v (hash k) 0 with
+    | none => simp [Api.put, hp] at this
+    | some d1 => exact ih (put_wf hb h (show Api.put hash fuel d k v = some d1 from hp))
+
+/-- `from`: the pairs put in order onto the empty map (so a later pair with the same key wins) -/
+theorem from_spec (hb : ∀ k, hash k < 2 ^ 32) {fuel : Nat} {pairs : List (K × V)} {d' : Dict K V}
+    (hf : Api.from hash fuel pairs = some d') :
+    Inv hash d' ∧ toMap d' = putAll (fun _ => none) pairs := by
+  have := fromList_spec hb pairs (new_wf (hash := hash) (V := V)) hf
+  have h0 : toMap (Dict.empty : Dict K V) = fun _ => none := by funext k; simp [toMap]
+  rw [← h0]; exact this
+
+theorem putAll_lookup (m : K → Option V) (pairs : List (K × V)) (k : K) :
+    putAll m pairs k = (pairs.reverse.lookup k).or (m k) := by
+  induction pairs generalizing m with
+  | nil => simp [putAll]
+  | cons e t ih =>
+    obtain ⟨a, b⟩ := e
+    simp only [putAll, List.foldl_cons] at ih ⊢
+    rw [ih]
+    simp only [List.reverse_cons, List.lookup_append, List.lookup_cons, List.lookup_nil]
+    by_cases hka : k = a
+    · subst hka; cases List.lookup k t.reverse <;> simp
+    · have : (k == a) = false := by simpa using hka
+      cases List.lookup k t.reverse <;> simp [hka, this]
+
+/-- `merge a b`: `b`'s bindings win, `a`'s show through where `b` has none -/
+theorem merge_spec (hb : ∀ k, hash k < 2 ^ 32) {fuel : Nat} {a b d' : Dict K V} (ha : Inv hash a)
+    (hbi : Inv hash b) (hm : Api.merge hash fuel a b = some d') (k : K) :
+    Inv hash d' ∧ toMap d' k = (toMap b k).or (toMap a k) := by
+  obtain ⟨w1, w2⟩ := fromList_spec hb (QM.Dict.entries [b] []) ha hm
+  refine ⟨w1, ?_⟩
+  rw [w2, putAll_lookup]
+  congr 1
+  -- lookup in the reversed entry list of `b` = `toMap b`
+  apply Option.ext
+  intro v
+  obtain ⟨n, m⟩ := entries_spec hbi
+  have hf : ∀ v v', (k, v) ∈ (Api.entries b).reverse → (k, v') ∈ (Api.entries b).reverse → v = v' := by
+    intro v v' h1 h2
+    rw [List.mem_reverse] at h1 h2
+    have a1 := (m k v).mp h1
+    have a2 := (m k v').mp h2
+    rw [a1] at a2; exact Option.some.inj a2
+  have := lookup_eq_some_iff hf v
+  simp only [Api.entries] at this m
+  rw [this, List.mem_reverse, m]
+
+/-! ### canonical shape -/
+
+/-- **the shape of a dict depends only on its contents** (the module's own claim, comment above
+`collapse_node`): two dicts satisfying the invariant that denote the same map are the same tree, up
+to the order of entries inside collision buckets — whatever sequences of insertions and removals
+produced them. -/
+theorem canonical_shape {d₁ d₂ : Dict K V} (h₁ : Inv hash d₁) (h₂ : Inv hash d₂)
+    (h : ∀ k, toMap d₁ k = toMap d₂ k) : Similar d₁ d₂ := by
+  have hc : ∀ e, e ∈ toList d₁ ↔ e ∈ toList d₂ := by
+    intro e; obtain ⟨a, b⟩ := e
+    rw [← toMap_eq_some_iff h₁, ← toMap_eq_some_iff h₂, h]
+  rcases h₁ with rfl | w₁ <;> rcases h₂ with rfl | w₂
+  · exact Similar.empty
+  · obtain ⟨e, he⟩ := List.exists_mem_of_ne_nil _ w₂.toList_ne_nil
+    have := (hc e).mpr he
+    simp at this
+  · obtain ⟨e, he⟩ := List.exists_mem_of_ne_nil _ w₁.toList_ne_nil
+    have := (hc e).mp he
+    simp at this
+  · exact canonical w₁ w₂ hc
+
+/-- without collision buckets "the same tree" is plain equality -/
+theorem similar_refl_example : Similar (Dict.leaf 7 1 "a") (Dict.leaf 7 1 "a") := Similar.leaf
+
 /-! ### the hypotheses are satisfiable: concrete colliding key sets
 
 `constHash` sends every key to 7 — every two keys collide in the full hash, everything lives in one
@@ -217,5 +453,33 @@ example : Api.from fragHash 8 [(1, "a"), (2, "b")] =
 -- fragments the trie ever looks at … and a small fuel
 example : splitPair 2 (2 ^ 40) 1 "a" (2 ^ 41) 2 "b" 0 = none := by
   simp [splitPair, fragment]
+
+-- `count_put` on a colliding key: replacing inside the bucket keeps the size, a new key adds one
+example : Api.count (Dict.collision 7 [(1, "a"), (2, "b"), (3, "c")]) =
+    if (toMap (Dict.collision 7 [(1, "a"), (2, "b")]) 3).isSome then
+      Api.count (Dict.collision 7 [(1, "a"), (2, "b")])
+    else Api.count (Dict.collision 7 [(1, "a"), (2, "b")]) + 1 :=
+  count_put constHash_lt inv_bucket put_bucket
+
+-- `merge`: the second dict wins on the colliding key 1
+example : Api.merge constHash 8 (Dict.collision 7 [(1, "a"), (2, "b")]) (Dict.leaf 7 1 "z") =
+    some (Dict.collision 7 [(1, "z"), (2, "b")]) := by
+  simp [Api.merge, fromList, QM.Dict.entries, put, constHash, bucketPut, revcat]
+
+-- `canonical_shape` on colliding keys: inserting 1 then 2, or 2 then 1, gives the same bucket up to
+-- the order of its entries (and nothing stronger: the two buckets ARE ordered differently)
+example : Similar (Dict.collision 7 [(1, "a"), (2, "b")]) (Dict.collision 7 [(2, "b"), (1, "a")]) :=
+  canonical_shape (hash := constHash) inv_bucket
+    (Or.inr (WF.collision (by simp [constHash]) (by simp) (by simp) (by simp)))
+    (by
+      intro k
+      simp only [toMap, toList_collision, List.lookup_cons, List.lookup_nil]
+      by_cases h1 : k = 1
+      · subst h1; simp
+      · by_cases h2 : k = 2
+        · subst h2; simp
+        · have a : (k == 1) = false := by simpa using h1
+          have b : (k == 2) = false := by simpa using h2
+          simp [a, b])
 
 end C19
